@@ -178,6 +178,9 @@ func init() {
 	registerProp(&propDef{ID: "C02", Rules: rulesC02, Floor: 22,
 		Expl: "Partial: (W3) every constant width that reaches the n-bit range primitive through the static call graph is a multiple of the commit checker's base width, the only configuration-dependent width is 64 − ProofOfWorkBits and it is a positive multiple of 16 for every common_circuit_data.json in the repository (else commit-based builds panic in the deferred drain); (dispatch) C06's obligations — no backend skips or mis-selects checks, so the verdict cannot depend on the backend through a dropped constraint; (W2, where listed) honest-fit of reduction sites by interval evaluation. Acceptance of concrete proofs is not decided.",
 		Rule: "one obligation per width reaching the range primitive, per circuit description, per C06 rule"})
+	registerProp(&propDef{ID: "C10", Rules: rulesC10, Floor: 3,
+		Expl: "Narrow structural clauses only — the injectivity half of C10: in HashNoPad and HashOrNoop the limbs are packed by a loop accumulator acc' = acc + limb_k·base^k (recurrence extracted from the SSA phi; base a compile-time constant ≥ 2^64; exponent = the limb's own index; number of limbs per element bounded — by the slice bounds lo+c / min(_, lo+c) or by a dominating len(input) ≤ c — with base^T ≤ r), and ToVec splits the canonical bit decomposition (no explicit width) into consecutive disjoint chunks of ≤ 63 bits. Agreement of the BN254 Poseidon permutation, sponge and shortcut with the reference PoseidonBN128 for all inputs is numeric and not decided.",
+		Rule: "one obligation per packing accumulator and for the chunking"})
 	registerProp(&propDef{ID: "C20", Rules: rulesC20, Floor: 20,
 		Expl: "T3 guard table: 18 refusals reachable from VerifierChip.Verify keyed by the compared quantities (lengths of proof lists vs configuration values, normalised to 'continues iff X op Y'), each must execute on every path and for every element of the list it validates (full-range loops); plus the 16-public-inputs refusal of CircuitFixed.Define and the hiding refusal of ReadCommonCircuitData. Decides presence, operator and coverage of the guards; that a shape change not covered by a guard is rejected by the equations is not decided.",
 		Rule: "one obligation per guard of the hand-confirmed table (DESIGN appendix A.4); the same comparison made at several sites must be found at each"})
@@ -187,9 +190,9 @@ func init() {
 	registerProp(&propDef{ID: "C14", Rules: withC06(func(cx *Ctx) []Obligation { return append(rulesC14(cx), rulesW3(cx, "C14")...) }), Floor: 16,
 		Expl: "From VerifierChip.Verify: an n-bit range check executes on every path on the value stored in FriChallenges.FriPowResponse of the derived challenges, with width expression 64 − <FRI config>.ProofOfWorkBits, and that value depends on the proof's PowWitness; the width check is live in every backend (C06 obligations) and constant widths are aligned (W3). The transcript order (witness observed before the response is squeezed) is C11's obligation. The arithmetic 'width w ⇔ ≥ 64−w leading zeros of a canonical 64-bit value' is argued in DESIGN.md, not checked.",
 		Rule: "one obligation per clause"})
-	registerProp(&propDef{ID: "C12", Rules: rulesC12, Floor: 4,
-		Expl: "From VerifierChip.Verify: per query round (loop covering every round, co-indexed by a refusal guard) and per tree, an equality executes on every path between a digest that depends on the opened leaf (both coordinates of all evaluations for commit-phase trees), on every sibling (full-range hashing loop) and on the query-index bits, and a cap entry selected by four bits from the top CapHeight bits of the same decomposition; initial tree t is compared against caps[t] in the order [ConstantSigmasCap, WiresCap, PlonkZsPartialProductsCap, QuotientPolysCap]. Left/right ordering and the lookup arithmetic are pinned by the positive tests and not claimed.",
-		Rule: "one obligation per tree family, index provenance and caps order"})
+	registerProp(&propDef{ID: "C12", Rules: func(cx *Ctx) []Obligation { return append(rulesC12(cx), rulesC10(cx)...) }, Floor: 7,
+		Expl: "From VerifierChip.Verify: per query round (loop covering every round, co-indexed by a refusal guard) and per tree, an equality executes on every path between a digest that depends on the opened leaf (both coordinates of all evaluations for commit-phase trees), on every sibling (full-range hashing loop) and on the query-index bits, and a cap entry selected by four bits from the top CapHeight bits of the same decomposition; initial tree t is compared against caps[t] in the order [ConstantSigmasCap, WiresCap, PlonkZsPartialProductsCap, QuotientPolysCap]. Plus C10's structural clauses (the leaf is hashed through an injective, non-wrapping limb packing). Left/right ordering and the lookup arithmetic are pinned by the positive tests and not claimed.",
+		Rule: "one obligation per tree family, index provenance, caps order, packing accumulator"})
 	registerProp(&propDef{ID: "C13", Rules: rulesC13, Floor: 7,
 		Expl: "Presence and coverage only: per round and step the two coordinate equalities between the bit-selected claimed evaluation and the running evaluation; after the steps the two equalities against the final polynomial at the folded point; the invertibility assertions; coverage of all rounds. The domain point, combination and interpolation formulas are not decided.",
 		Rule: "one obligation per equality coordinate / assertion / loop coverage"})
